@@ -28,6 +28,7 @@ def check(run):
     total_structs = 0
     diffs = []
     shapes = {}
+    in_class = [0, 0]
     for rd in range(rounds):
         g = derive_gen.Gen(rng)
         for d in (0,) * 14 + (1,) * 14 + (2,) * 12 + (3,) * 8:
@@ -74,6 +75,11 @@ def check(run):
             run.violation(kind="program", case=h.case[:2000], expected="a value or an error", observed="Hang (10 s watchdog) in a generated decoder",
                           how_found="oracle", program=g.rust()[:6000])
             continue
+        # membership of the generated (layout, value) pairs in the class the inverse theorem is proved for
+        ccases = ["lcanon\t" + mc.split("\t", 1)[1] for mc, e in zip(mcases, expect) if e is not None]
+        co = vlib.run_sharded(drv, ccases, run.workdir, "c12_canon%d" % rd)
+        in_class[0] += sum(1 for r in co if r == "1")
+        in_class[1] += len(co)
         src = g.rust()
         for ic, mc, m, i, e in zip(icases, mcases, mo, io, expect):
             if m != i:
@@ -92,6 +98,7 @@ def check(run):
                 run.sample({"model_case": mcases[k][:300], "model": mo[k][:200], "impl": io[k][:200]})
             run.coverage["sample_program"] = src[:1200]
     run.coverage["programs"] = total_structs
+    run.coverage["wf_values_in_proved_class"] = "%d of %d" % tuple(in_class)
     run.coverage["field_shape_histogram"] = dict(sorted(shapes.items(), key=lambda kv: -kv[1])[:40])
     run.nontrivial = {str(x) for x in run.nontrivial}
     report_diffs(run, diffs, "coq/Codec.v (dec / enc for an arbitrary layout)", "the code #[derive(Zvt)] generated for a random struct", "derive_gen")
